@@ -588,6 +588,59 @@ theorem owned_after_history (fs : Funs) (d : InvData) : ∀ (ops : List Op), Own
   intro ops
   exact gen ops _ (newModel_owned Owned.empty d)
 
+/-! ## variant indexing: there is no variant outside `-n .. n-1` -/
+
+/-- an index outside `-n .. n-1` resolves to nothing ... -/
+theorem resolveIdx_out_of_range (n : Nat) (i : Int) (h : i < -(n : Int) ∨ (n : Int) ≤ i) : resolveIdx n i = none := by
+  unfold resolveIdx
+  have h1 : ¬ (0 ≤ i ∧ i < n) := by omega
+  have h2 : ¬ (-(n : Int) ≤ i ∧ i < 0) := by omega
+  simp [h1, h2]
+
+/-- ... and an index inside resolves to the position Python's list indexing gives -/
+theorem resolveIdx_in_range (n : Nat) (i : Int) (h : -(n : Int) ≤ i ∧ i < n) :
+    resolveIdx n i = some (if 0 ≤ i then i.toNat else (i + n).toNat) ∧ (if 0 ≤ i then i.toNat else (i + n).toNat) < n := by
+  unfold resolveIdx
+  by_cases h0 : 0 ≤ i
+  · have : 0 ≤ i ∧ i < n := ⟨h0, h.2⟩
+    simp only [this, and_self, if_true, h0, true_and]
+    omega
+  · have h1 : ¬ (0 ≤ i ∧ i < n) := by omega
+    have h2 : -(n : Int) ≤ i ∧ i < 0 := by omega
+    simp only [h1, if_false, h2, and_self, if_true, h0, true_and]
+    have e := Int.toNat_of_nonneg (show 0 ≤ i + (n : Int) by omega)
+    refine ⟨by simp, ?_⟩
+    omega
+
+/-- `m[k]` / `get_variant([.., k, ..])` with ANY index outside `-n .. n-1` is rejected (`IndexError`): a variant that
+does not exist cannot be obtained, whatever the other indices are -/
+theorem view_out_of_range_rejected {h : Heap} {m i : Nat} {vs : List Nat} {d : InvData}
+    (hm : getModel h m = .ok (i, vs, d)) (idxs : List Int) (k : Int) (hk : k ∈ idxs)
+    (hout : k < -(vs.length : Int) ∨ (vs.length : Int) ≤ k) : view h m idxs = .error .bad := by
+  have hsel : selectVars vs idxs = none := by
+    induction idxs with
+    | nil => cases hk
+    | cons j js ih =>
+      simp only [List.mem_cons] at hk
+      simp only [selectVars]
+      rcases hk with rfl | hk
+      · rw [resolveIdx_out_of_range _ _ hout]
+        simp
+      · rw [ih hk]
+        cases (resolveIdx vs.length j).bind (fun j => vs[j]?) <;> rfl
+  unfold view
+  simp [hm, hsel]
+
+/-- a single in-range index selects exactly the variant object at Python's position (an alias, not a copy) -/
+theorem view_single_in_range {h : Heap} {m i : Nat} {vs : List Nat} {d : InvData}
+    (hm : getModel h m = .ok (i, vs, d)) (k : Int) (hin : -(vs.length : Int) ≤ k ∧ k < vs.length) :
+    ∃ v, vs[if 0 ≤ k then k.toNat else (k + vs.length).toNat]? = some v ∧
+      view h m [k] = .ok (h.alloc (.model i [v])) := by
+  obtain ⟨hres, hlt⟩ := resolveIdx_in_range vs.length k hin
+  refine ⟨vs[if 0 ≤ k then k.toNat else (k + vs.length).toNat]'hlt, List.getElem?_eq_getElem hlt, ?_⟩
+  unfold view
+  simp [hm, selectVars, hres, List.getElem?_eq_getElem hlt]
+
 /-! ## non-vacuity: the hypotheses are met by a concrete model -/
 
 private def q (n : String) (k : QKind) (l : Option Bool) : Quantity := { name := n, kind := k, logly := l }
@@ -611,7 +664,9 @@ example : h0.WF := by
 
 example : ∃ p, copy h0 4 = .ok p := ⟨_, rfl⟩
 example : ∃ p, pickle h0 4 = .ok p := ⟨_, rfl⟩
-example : ∃ p, view h0 4 [0, 0] = .ok p := ⟨_, rfl⟩
+example : ∃ p, view h0 4 [0, -1] = .ok p := ⟨_, rfl⟩
+example : view h0 4 [0, 1] = .error .bad := rfl
+example : view h0 4 [-2] = .error .bad := rfl
 example : (observe h0 4).isSome = true := rfl
 example : ∃ h', solve (fun _ _ _ => "s") h0 4 = .ok h' := ⟨_, rfl⟩
 example : ∃ h', alter h0 4 3 = .ok h' := ⟨_, rfl⟩
